@@ -38,7 +38,7 @@ def sequential_case(rng):
     n_eng = rng.choice([1, 2, 3])
     engines = [rng.choice([iteration.Engine, sql.Engine])(name=f"e{i}") for i in range(n_eng)]
     n = rng.choice([1, 2, 3, 5, 8])
-    reqs = [(rng.randrange(n_eng), rng.choice(["leaf", "materialization", "x", "tmp_9", "p" * 58, "q" * 70])) for _ in range(n)]
+    reqs = [(rng.randrange(n_eng), rng.choice(["leaf", "materialization", "x", "tmp_9", "p" * 58, "q" * 70, "tmp_", "tmp__", "__", "stage_1___", "_", "a_b"])) for _ in range(n)]
     hexes = ["".join(rng.choice("0123456789abcdef") for _ in range(32)) for _ in range(n)]
     saved = engine_module.uuid
     engine_module.uuid = FakeUuid(hexes)
@@ -107,7 +107,7 @@ def same_name_engines(rng):
     out = []
     for _ in range(rng.choice([2, 3, 5])):
         for eng in engines:
-            pref = rng.choice(["leaf", "materialization", "materialization_of_visit_detector_region_overlap_for_patch",
+            pref = rng.choice(["leaf", "materialization", "tmp__", "__x__", "materialization_of_visit_detector_region_overlap_for_patch",
                                "leaf_for_user_supplied_data_ids_constraining_visit_detector_region_and_tract"])
             how = rng.randrange(3)
             if how == 0:
